@@ -62,6 +62,25 @@ CHECKS = {
     'C14': ('exhaustive enumeration of is_path methods x patterns x file contents x window sizes',
             'Every method with is_path is called on a real UTF-8 file and on its content; windows are compared with slice arithmetic on the text.',
             '3 C14', 'File contents avoid \\r. Files live in a temp dir the check creates and removes.'),
+    'C15': ('exhaustive enumeration of parameter pairs x numerals x contexts against a numeric model',
+            'All 0<=start<=end<=110 (thorough: to 1100) x every digit string up to one digit longer than end, between spaces and as whole text; '
+            'boundary parameter pairs x boundary numerals x clean contexts (both directions) and open contexts (safety half) x 5 sign variants; '
+            'extensible form through prefix + numeral.', '3 C15',
+            'Numerals glued to letters/underscores/dots are only checked for safety, as the documentation leaves them open.'),
+    'C16': ('exhaustive enumeration of ranges x fraction bounds x candidates x contexts against a numeric model',
+            'ranges x fraction bounds x 5 sign variants x (integer parts incl. none and leading-zero forms) x fraction strings of every length 0..max+2 '
+            'x signs x clean contexts; is_exact_match and prefix + extensible.', '3 C16', 'Composition of the C15 model with the fraction-length bound.'),
+    'C17': ('exhaustive enumeration of bases/bounds/affix lists x candidate strings; automaton product for extensible Numeral',
+            'All bases 2..16 x length bounds x both is_extensible x every candidate string over a 6-symbol alphabet; every extensible Numeral is also '
+            'decided for all strings by the product of its NFA with a counting reference; Word over all texts of length <= 6; Word* with literal affixes.',
+            '3 C17', 'Word characters in candidates are ASCII.'),
+    'C18': ('explicit-state product of the NFA of the emitted pattern with a hand-written RFC 4291 / dotted-quad automaton; all access strings replayed',
+            'Acceptance must agree in every reachable product state, which decides the whole (regular) language of the extensible patterns with no length '
+            'bound; every access string is replayed on re/is_exact_match and on ipaddress; non-extensible forms by guard structure and embedded contexts.',
+            '3 C18', 'Trusted: ipaddress as ground truth for strings over the address alphabet; \\d restricted to ASCII.'),
+    'C19': ('exhaustive enumeration of formats x candidate strings against a direct parser of the format string',
+            'All 48 formats x both is_extensible x every 1-2 digit part value x year strings x 4 separator combinations; format pairs and None on '
+            'accepted + near-miss candidates; invalid format arguments.', '3 C19', 'The reference is a 12-line parser of the format string.'),
     'C20': ('explicit-state BFS of the DSL value graph with operand snapshots; history search; set-order exploration',
             'Operands are snapshotted before/after every transition; rebuilt expressions must reach the same state.',
             '3 C20', GRAPH_NOTE),
